@@ -15,7 +15,7 @@ pkgs_of() {
     citer) echo "./pkg/storage/storagewrappers ./internal/shared golang.org/x/sync/singleflight" ;;
     tsres) echo "golang.org/x/sync/singleflight" ;;
     memw) echo "./pkg/storage/memory google.golang.org/protobuf/types/known/timestamppb" ;;
-    cctl) echo "./internal/cachecontroller ./internal/concurrency ./pkg/storage/storagewrappers ./internal/shared golang.org/x/sync/singleflight" ;;
+    cctl) echo "./internal/cachecontroller ./internal/graph ./internal/concurrency ./pkg/storage/storagewrappers ./internal/shared golang.org/x/sync/singleflight github.com/sourcegraph/conc github.com/sourcegraph/conc/pool github.com/sourcegraph/conc/panics" ;;
     *) return 1 ;;
   esac
 }
